@@ -45,11 +45,16 @@ macro_rules! read_hex {
         } else {
             let mut i = 0;
             loop {
-                let high = $crate::HEX_INVERSE[$input[i * 2] as usize];
+                // (the table covers ASCII only: any other byte is not a hex char)
+                let high = *$crate::HEX_INVERSE
+                    .get($input[i * 2] as usize)
+                    .unwrap_or(&255);
                 if high == 255 {
                     break Err($crate::InnerError::BadHexInput.into());
                 }
-                let low = $crate::HEX_INVERSE[$input[i * 2 + 1] as usize];
+                let low = *$crate::HEX_INVERSE
+                    .get($input[i * 2 + 1] as usize)
+                    .unwrap_or(&255);
                 if low == 255 {
                     break Err($crate::InnerError::BadHexInput.into());
                 }
